@@ -451,7 +451,7 @@ def run_gaussian(ctx, cuqi, thorough):
     from cuqi.distribution import Gaussian, Lognormal
     rs = np.random.RandomState(ctx.seed + 501)
     cases = []
-    ncase = 160 * ctx.scale
+    ncase = (110 if ctx.scale == 1 else 160 * ctx.scale)
     kinds_full = ["lower", "upper", "full", "lowerbi", "upperbi"]
     for k in range(ncase):
         r = rs.rand()
@@ -815,7 +815,7 @@ def run_wrap(ctx, cuqi, thorough):
     rs = np.random.RandomState(ctx.seed + 503)
     zoo = family_zoo(cuqi, rs)
     lines, metas = [], []
-    Ns = [1, 2, 3, 7] if not thorough else [1, 2, 3, 4, 7, 10, 25]
+    Ns = [1, 2, 3] if not thorough else [1, 2, 3, 4, 7, 10, 25]
     for fam, mk, dim in zoo:
         try:
             with quiet():
@@ -1443,7 +1443,7 @@ def run_mhn(ctx, cuqi, thorough):
     rs = np.random.RandomState(ctx.seed + 505)
     grid = [(2.0, 3.0, 1.0), (0.5, 1.0, 1.0), (3.0, 2.0, 2.0), (1.5, 1.0, 3.0), (5.0, 0.125, 1.0), (3.0, 1.0, 4.0),
             (2.0, 1.0, -1.0), (0.5, 2.0, -2.0), (1.0, 1.0, 0.0), (4.0, 0.5, -0.5), (1.0, 0.5, 0.5), (2.5, 2.5, 2.5)]
-    for _ in range(6 * ctx.scale):
+    for _ in range(3 if ctx.scale == 1 else 6 * ctx.scale):
         grid.append((float(rs.choice([0.5, 0.75, 1.0, 1.5, 2.0, 3.0, 6.0])), float(rs.choice([0.25, 0.5, 1.0, 2.0, 4.0])),
                      float(rs.choice([-2.0, -0.5, 0.0, 0.5, 1.0, 3.0]))))
     # ---- model side, phase 1: scheme and proposal parameters (private entry point and what the getters hand over)
@@ -1619,11 +1619,18 @@ def _gauss_value(rs, form, kind, n, prev=None):
             M = M + np.triu(rint(rs, 1, 2, size=(n, n)).astype(float), 1)   # lower part and diagonal shared, upper part new
         return M
     sparse_fmt = None
+    if kind in ("sparse-same", "sparse-some") and prev is not None and np.ndim(prev) == 2:
+        M = np.array(prev, dtype=float, copy=True)
+        if kind == "sparse-some":
+            M = M + (np.diag(rs.choice([1.0, 2.0], size=n)) if form in ("cov", "prec") else np.diag(rs.choice([1.0, 3.0], size=n)))
+        return sp.csr_matrix(M)
     if kind.startswith("sparse-"):
         _, sub, sparse_fmt = kind.split("-")
     else:
         sub = kind if kind in ("lower", "upper", "full", "lowerbi", "upperbi", "tridiag") else "full"
     M = gen_matrix(rs, sub, n)
+    if sub == "diag" and form in ("cov", "prec"):
+        M = np.abs(M)
     if form in ("cov", "prec"):
         M = M @ M.T
     if sparse_fmt:
@@ -1651,6 +1658,17 @@ def run_histories(ctx, cuqi, thorough):
                 n = int(rint(rs, 2, 6))
                 kinds = [k0, k1] + ([str(rs.choice(third))] if rs.rand() < 0.5 else [])
                 hist.append((form, n, kinds, bool(rs.rand() < 0.3)))
+        # parameter re-assigned while the object stays in the SPARSE regime (a factorisation cached at the first draw
+        # must not survive the setter): sparse -> sparse in the same / another storage format, same / some / no entries shared
+        for (k0, k1) in [("sparse-tridiag-csr", "sparse-lowerbi-csr"), ("sparse-lowerbi-dia", "sparse-tridiag-csc"), ("sparse-full-csc", "sparse-some"),
+                         ("sparse-tridiag-csr", "sparse-same"), ("vector", "sparse-tridiag-csr"), ("sparse-diag-dia", "sparse-lowerbi-coo")]:
+            for rep in range(ctx.scale):
+                kinds = [k0, k1] + ([str(rs.choice(["sparse-some", "sparse-tridiag-csr", "lower"]))] if rs.rand() < 0.5 else [])
+                hist.append((form, int(rint(rs, 3, 6)), kinds, bool(rs.rand() < 0.3)))
+        # dim > MIN_DIM_SPARSE: scalar / vector / diagonal parameters are stored sparse for every form
+        big_trans = [("scalar", "vector"), ("vector", "vector"), ("vector", "diag2d"), ("scalar", "scalar"), ("diag2d", "sparse-diag-dia"), ("vector", "sparse-lowerbi-csr")]
+        for (k0, k1) in (big_trans if thorough else [big_trans[i] for i in rs.choice(len(big_trans), size=3, replace=False)]):
+            hist.append((form, int(rs.choice([76, 80])), [k0, k1], bool(rs.rand() < 0.3)))
     lines, metas = [], []
     for (form, n, kinds, change_mean) in hist:
         mean = rint(rs, -3, 3, size=n).astype(float)
@@ -1685,9 +1703,16 @@ def run_histories(ctx, cuqi, thorough):
             r2 = Script(unit_plan(n)); s2, e2, u2 = call_sample(fresh, n + 1, r2)
             with quiet():
                 Rf = fresh.sqrtprec
-            cols = np.hstack([np.zeros((n, 1)), np.eye(n)]).T
-            lines.append(f"gauss {1 if sp.issparse(Rf) else 0} {qv(mean.tolist())} {qm(dense(Rf).tolist())} {qm(cols.tolist())}")
-            metas.append(dict(kind="gauss", key=key, desc=desc, G=G, n=n, s1=s1, e1=e1, s2=s2, e2=e2, u=u1, calls=r1.calls, step=si))
+            colsel = list(range(n + 1)) if n <= 20 else [0, 1, n // 2, n]
+            cols = np.hstack([np.zeros((n, 1)), np.eye(n)]).T[colsel]
+            Rfd = dense(Rf)
+            if n > 20 and np.count_nonzero(Rfd - np.diag(np.diag(Rfd))) and form != "sqrtprec":
+                lines.append("noop")          # float-valued large factor: equality with the fresh object and the density oracle decide
+            else:
+                lines.append(f"gauss {1 if sp.issparse(Rf) else 0} {qv(mean.tolist())} {qm(Rfd.tolist())} {qm(cols.tolist())}")
+            if n > 8:
+                desc["current_value"] = "…"; desc["current_mean"] = "…"
+            metas.append(dict(kind="gauss", key=key, desc=desc, G=G, n=n, s1=s1, e1=e1, s2=s2, e2=e2, u=u1, calls=r1.calls, step=si, colsel=colsel))
             # the history object is used again: freeze what the oracle needs now
             metas[-1]["oracle"] = None
             if e1 is None:
@@ -1736,12 +1761,12 @@ def run_histories(ctx, cuqi, thorough):
                             H, g = hessian_from_logpdf(G, off)
                             metas[-1]["oracle"] = (off, B, H, g)
     # ------------------------------------------------------------------ Lognormal (mean / cov)
-    for rep in range(6 * ctx.scale):
-        n = int(rint(rs, 1, 4))
+    for rep in range(6 * ctx.scale + 2):
+        n = int(rint(rs, 1, 4)) if rep < 6 * ctx.scale else 76
         L = None
-        for si in range(3):
+        for si in range(3 if n < 20 else 2):
             mean = rint(rs, -1, 1, size=n).astype(float)
-            kind = str(rs.choice(["scalar", "vector", "full"])) if n > 1 else "scalar"
+            kind = (str(rs.choice(["scalar", "vector", "full"])) if n > 1 else "scalar") if n < 20 else str(rs.choice(["scalar", "vector"]))
             cov = _gauss_value(rs, "cov", kind, n)
             if kind == "full":
                 cov = cov / 4.0
@@ -1760,9 +1785,10 @@ def run_histories(ctx, cuqi, thorough):
             pl = lambda method, shape, k, tgt=tgt: tgt if method in ("randn", "standard_normal") and shape == tgt.shape else None  # noqa
             r1 = Script(pl); s1, e1, u1 = call_sample(L, n + 1, r1)
             r2 = Script(pl); s2, e2, u2 = call_sample(fresh, n + 1, r2)
-            lines.append(f"gauss 0 {qv(mean.tolist())} {qm(Rf.tolist())} {qm(tgt.T.tolist())}")
-            desc = {"family": "Lognormal", "dim": n, "step": si, "current_mean": mean.tolist(), "current_cov": np.asarray(cov).tolist()}
-            metas.append(dict(kind="logn", key="history:Lognormal", desc=desc, G=L, n=n, s1=s1, e1=e1, s2=s2, e2=e2, u=u1, calls=r1.calls, step=si, oracle=None))
+            colsel = list(range(n + 1)) if n <= 20 else [0, 1, n // 2, n]
+            lines.append(f"gauss 0 {qv(mean.tolist())} {qm(Rf.tolist())} {qm(tgt.T[colsel].tolist())}")
+            desc = {"family": "Lognormal", "dim": n, "step": si, "current_mean": mean.tolist() if n <= 8 else "…", "current_cov": np.asarray(cov).tolist() if n <= 8 else "…"}
+            metas.append(dict(kind="logn", key="history:Lognormal", desc=desc, G=L, n=n, s1=s1, e1=e1, s2=s2, e2=e2, u=u1, calls=r1.calls, step=si, oracle=None, colsel=colsel))
             if e1 is None and values(s1).shape == (n, n + 1) and np.all(values(s1) > 0):
                 Y = np.log(values(s1)); off = Y[:, 0].copy(); B = Y[:, 1:] - off[:, None]
                 H, g = hessian_from_logpdf(_LogVar(L), off)
@@ -1783,18 +1809,23 @@ def run_histories(ctx, cuqi, thorough):
             S1c, S2c = S1, S2
         bad = False
         tol = 1e-6 if m.get("bc") == "neumann" else 1e-9
-        if out.startswith(("err", "bad", "cert")):
+        if out == "bad-op":
+            pass
+        elif out.startswith(("err", "bad", "cert")):
             ctx.note(f"history: model refuses at {desc}: {out}")
         else:
             body = out.split(" ", 1)[1] if m["kind"] in ("gauss", "logn") or m.get("bc") == "neumann" else out
             Sm = np.array([[float(x) for x in row] for row in pm(body)]).T
-            if S1c.shape != Sm.shape or not mclose(S1c.tolist(), Sm.tolist(), tol):
+            S1m = S1c[:, m["colsel"]] if m.get("colsel") is not None and S1c.ndim == 2 and S1c.shape[1] == n + 1 else S1c
+            if S1m.shape != Sm.shape or not mclose(S1m.tolist(), Sm.tolist(), tol):
                 ctx.disagree(key, desc, Sm.tolist(), S1c.tolist(), "draws after this step vs the model for the CURRENT parameters")
                 bad = True
         fresh_same = S1.shape == S2.shape and mclose(S1c.tolist(), S2c.tolist(), 1e-12)
         if not fresh_same:
             ctx.fail(key, desc, "draws equal those of a freshly constructed object with the current parameters (same generator state)",
-                     {"history_object": S1c.tolist(), "fresh_object": S2c.tolist()}, "state left over from earlier parameters / draws influences sampling")
+                     ({"history_object": S1c.tolist(), "fresh_object": S2c.tolist()} if n <= 8 else
+                      {"max_abs_difference": (float(np.abs(S1c - S2c).max()) if S1c.shape == S2c.shape else "shape"), "history_diag_of_B": np.diag(S1c[:, 1:] - S1c[:, :1])[:6].tolist(),
+                       "fresh_diag_of_B": np.diag(S2c[:, 1:] - S2c[:, :1])[:6].tolist()}), "state left over from earlier parameters / draws influences sampling")
         if m["oracle"] is not None:
             off, B, H, g = m["oracle"]
             if np.all(np.isfinite(H)):
@@ -2291,6 +2322,9 @@ def retype(a, form):
     integral = bool(np.all(a == np.round(a)))
     if form in ("int64", "int32"):
         return a.astype(form) if integral else None
+    if form in ("uint8", "int8", "float16", "bool"):
+        b = a.astype({"bool": bool}.get(form, form))
+        return b if np.array_equal(b.astype(float), a) else None      # only when the numbers are representable
     if form == "float32":
         return a.astype(np.float32) if np.all(a.astype(np.float32) == a) else None
     if form == "cuqiarray":
@@ -2348,7 +2382,7 @@ def run_generic(ctx, cuqi, thorough):
                 ctx.fail(key, desc, "the given generator is consulted", "no call reached it", "the positional generator is not used")
 
     # ---------------------------------------------------------------- (b) same numbers, other array types
-    forms = ["int64", "int32", "float32", "cuqiarray", "matrix", "negstride", "list", "F"]
+    forms = ["int64", "int32", "float32", "cuqiarray", "matrix", "negstride", "list", "F", "uint8", "int8", "float16", "bool"]
     geoms = [lambda n: None, lambda n: Continuous1D(np.linspace(0, 1, n)), lambda n: Discrete([f"v{i}" for i in range(n)]),
              lambda n: Continuous2D((2, n // 2)) if n % 2 == 0 else Continuous1D(n)]
 
@@ -2370,7 +2404,8 @@ def run_generic(ctx, cuqi, thorough):
                     ctx.case("typed-refused", {**desc, "error": e1}, nontrivial=False)
                 continue
             X1, X2 = values(s1), values(s2)
-            if X1.shape != X2.shape or not np.allclose(X1, X2, rtol=1e-6 if "float32" in key else 1e-10, atol=1e-6 if "float32" in key else 1e-12):
+            single = any(t in key for t in ("float32", "float16", "int8", "uint8", "bool"))   # routes that may compute in single precision
+            if X1.shape != X2.shape or not np.allclose(X1, X2, rtol=1e-6 if single else 1e-10, atol=1e-6 if single else 1e-12):
                 ctx.disagree(key, {**desc, "N": N}, X2.tolist(), X1.tolist(), "draws for the same numbers given in another array type vs float64 ndarray")
                 ctx.fail(key, {**desc, "N": N}, "draws equal those of the object built from float64 ndarrays holding the same numbers (same generator output)",
                          {"typed": X1.tolist(), "float64": X2.tolist(), "generator_output": [np.asarray(c[1]).tolist() if False else c[0] for c in ra.calls]},
@@ -2398,7 +2433,9 @@ def run_generic(ctx, cuqi, thorough):
                 mform = str(rs.choice(["int64", "cuqiarray", "float32", "list", "negstride"]))
                 mt = retype(mean, mform)
                 if kind == "sparse":
-                    if form_m not in ("int64", "int32", "float32"):
+                    if form_m not in ("int64", "int32", "float32", "uint8", "int8"):
+                        continue
+                    if retype(M, form_m) is None:
                         continue
                     Mt = sp.csr_matrix(M.astype(form_m)).asformat(str(rs.choice(["csr", "csc", "dia", "coo"])))
                 if Mt is None:
@@ -2411,7 +2448,7 @@ def run_generic(ctx, cuqi, thorough):
                               lambda: Gaussian(mt if mt is not None else mean.copy(), **{pform: Mt}, **kw),
                               lambda: Gaussian(mean.copy(), **{pform: (sp.csr_matrix(M) if kind == "sparse" else M.copy())}, **kw), n)
     # GMRF / Lognormal means and covariances, iid parameters
-    for form_m in ["int64", "int32", "float32", "cuqiarray", "negstride", "list"]:
+    for form_m in ["int64", "int32", "float32", "cuqiarray", "negstride", "list", "uint8", "int8", "float16"]:
         for rep in range(ctx.scale):
             n = 4
             mean = rint(rs, -2, 2, size=n).astype(float)
@@ -2464,6 +2501,15 @@ def run_generic(ctx, cuqi, thorough):
                         G = Gaussian(np.zeros(n), **{pform: val})
                         R = G.sqrtprec
                         Rd = dense(R)
+                        # the whole problem is posed in the same (tiny / huge) units: mean = a few tens of standard
+                        # deviations, possibly far below any absolute tolerance (1e-8) yet not negligible
+                        mean_u = rint(rs, 1, 4, size=n).astype(float) * rs.choice([-1.0, 1.0], size=n) * 10.0 / float(np.abs(Rd).max())
+                        if rs.rand() < 0.15:
+                            mean_u[:] = 0.0
+                        G = Gaussian(mean_u.copy(), **{pform: val})
+                        R = G.sqrtprec
+                        Rd = dense(R)
+                        desc["mean"] = mean_u.tolist()
                 except Exception as e:
                     ctx.case("scale-refused", {**desc, "error": type(e).__name__}, nontrivial=False); continue
                 r = Script(unit_plan(n)); s_, e_, u_ = call_sample(G, n + 1, r)
@@ -2471,7 +2517,7 @@ def run_generic(ctx, cuqi, thorough):
                 tol_class = (not sp.issparse(R)) and upper.max() > 0 and upper.max() <= 1e-8
                 key = f"scale:Gaussian:{pform}:" + ("stored-upper-entries-below-1e-8" if tol_class else kind)
                 cols = np.hstack([np.zeros((n, 1)), np.eye(n)]).T
-                lines.append(f"gauss {1 if sp.issparse(R) else 0} 0 {qm(Rd.tolist())} {qm(cols.tolist())}")
+                lines.append(f"gauss {1 if sp.issparse(R) else 0} {qv(mean_u.tolist())} {qm(Rd.tolist())} {qm(cols.tolist())}")
                 metas.append(dict(key=key, desc=desc, G=G, n=n, s=s_, e=e_, Rd=Rd, sc=sc, pform=pform))
     outs = ctx.lean.drive(lines)
     for m, out in zip(metas, outs):
@@ -2535,6 +2581,306 @@ def run(ctx):   # noqa: F811
     _run_part5(ctx)
     cuqi = import_cuqi()
     run_generic(ctx, cuqi, ctx.tier == "thorough")
+
+
+# ============================================================================= part 6: user-defined samplers, block/threshold sizes, small units
+def run_custom(ctx, cuqi, thorough):
+    """UserDefinedDistribution / DistributionGallery: one column per draw, in call order, whatever object the user's
+    sampling callable returns (fresh arrays, the SAME buffer updated in place, views of internal state, (dim,1)
+    arrays, CUQIarrays, python floats)."""
+    from cuqi.distribution import UserDefinedDistribution, DistributionGallery
+    from cuqi.array import CUQIarray
+    rs = np.random.RandomState(ctx.seed + 511)
+    kinds = ["fresh", "buffer", "view", "col", "cuqiarray", "float32", "readonly-buffer-copy"]
+    lines, metas = [], []
+    for kind in kinds:
+        for dim in (1, 2, 3, 5):
+            for N in (1, 2, 3, 7, 300):
+                if N == 300 and (dim > 2 or not (thorough or kind in ("fresh", "buffer", "view"))):
+                    continue
+                stream = (2 * rs.randint(-20, 20, size=(N + 2, dim)) + 1) / 8.0
+                state = {"k": 0, "buf": np.zeros(dim), "big": np.zeros((2, dim)), "log": []}
+
+                def sample_func(kind=kind, stream=stream, state=state, dim=dim):
+                    v = stream[state["k"]]; state["k"] += 1
+                    state["log"].append(v.copy())
+                    if kind == "fresh":
+                        return v.copy()
+                    if kind == "buffer":
+                        state["buf"][:] = v
+                        return state["buf"]                       # the same array object on every call
+                    if kind == "view":
+                        state["big"][1, :] = v
+                        return state["big"][1]                    # a view into internal state
+                    if kind == "col":
+                        return v.copy().reshape(dim, 1)
+                    if kind == "cuqiarray":
+                        return CUQIarray(v.copy())
+                    if kind == "float32":
+                        return v.astype(np.float32)
+                    b = v.copy(); b.setflags(write=False)
+                    return b
+                logpdf = lambda x: -0.5 * float(np.sum(np.asarray(x) ** 2))  # noqa
+                with quiet():
+                    D = UserDefinedDistribution(dim=dim, logpdf_func=logpdf, sample_func=sample_func)
+                s_, e_, u_ = call_sample(D, N, np.random.RandomState(0))
+                calls = [c.copy() for c in state["log"]]
+                desc = {"family": "UserDefinedDistribution", "dim": dim, "N": N, "sample_func_returns": kind}
+                lines.append(f"custom {N} {dim} {qm([c.tolist() for c in calls[:N]]) if len(calls) >= N else '_'}")
+                lines.append(f"shape custom 0 {dim} {N}")
+                metas.append((kind, dim, N, D, s_, e_, calls, desc))
+    outs = ctx.lean.drive(lines)
+    for i, (kind, dim, N, D, s_, e_, calls, desc) in enumerate(metas):
+        out, oshape = outs[2 * i], outs[2 * i + 1]
+        key = f"custom:{kind}:{'N1' if N == 1 else 'N>1'}"
+        ctx.case("custom", desc)
+        if e_ is not None:
+            ctx.case("custom-refused", {**desc, "error": e_}, nontrivial=False)       # e.g. (dim,1) returns with dim > 1: a refusal
+            continue
+        X = values(s_)
+        if len(calls) != N:
+            ctx.disagree(key, desc, N, len(calls), "number of calls of the user's sampling function")
+        if not out.startswith(("err", "bad")):
+            Sm = np.array([[float(x) for x in row] for row in pm(out)])
+            if X.shape != Sm.shape or not np.array_equal(X, Sm):
+                ctx.disagree(key, desc, Sm.tolist() if N <= 7 else Sm[:, :4].tolist(), X.tolist() if N <= 7 else X[:, :4].tolist(), "column i = value returned by the i-th call")
+        tok = shape_token(cuqi, s_)
+        if tok != oshape:
+            ctx.disagree(key, desc, oshape, tok, "type/shape of the result")
+        # oracle (implementation only): one column per draw, in call order
+        ref = np.array([c for c in calls[:N]]).T if len(calls) >= N else None
+        if ref is None or X.shape != ref.shape or not np.array_equal(X, ref):
+            bad_cols = [] if ref is None or X.shape != ref.shape else [int(j) for j in range(N) if not np.array_equal(X[:, j], ref[:, j])][:6]
+            ctx.fail(key, desc, "column i of the result is the draw the i-th call of the user's sampling function returned",
+                     {"columns_differing": bad_cols, "first_columns": X[:, :4].tolist(), "draws_returned_by_calls": (ref[:, :4].tolist() if ref is not None else None)},
+                     "draws are not copied when they are returned (aliasing of a re-used buffer) / wrong order")
+        for d_, g_ in wrap_oracle(cuqi, D, N, s_):
+            ctx.fail(key, desc, d_, g_, "wrapping")
+    # gallery: the bivariate Gaussian delegates to a Gaussian sampler and reports its density
+    for name in ("BivariateGaussian",):
+        try:
+            with quiet():
+                D = DistributionGallery(name)
+        except Exception as e:
+            ctx.note(f"gallery {name} refused: {type(e).__name__}"); continue
+        desc = {"family": "DistributionGallery", "name": name}
+        r = Script(unit_plan(2)); s_, e_, _ = call_sample(D, 3, r)
+        ctx.case("gallery", desc)
+        if e_ is None:
+            S = values(s_); off = S[:, 0].copy(); B = S[:, 1:] - off[:, None]
+            affine_oracle(D, off, B, f"gallery:{name}", desc, ctx)
+            for d_, g_ in wrap_oracle(cuqi, D, 3, s_):
+                ctx.fail(f"gallery:{name}", desc, d_, g_, "wrapping")
+
+
+def run_blocks(ctx, cuqi, thorough):
+    """sizes just past internal block / threshold constants: N around 256 (and 75, 100, 1000), dims around 2000;
+    every column of a large request must be the affine image of its own normal column (resp. the transposed
+    generator output for the iid families)."""
+    import scipy.sparse as sp
+    from cuqi.distribution import Gaussian, GMRF, Lognormal, Normal, Gamma, Laplace, Uniform, Cauchy, Beta, InverseGamma
+    from cuqi.geometry import Image2D
+    rs = np.random.RandomState(ctx.seed + 512)
+    Ns = [74, 76, 100, 101, 255, 256, 257, 300, 513] + ([1000, 1025, 2049] if thorough else [1001])
+    objs = []
+    n = 4
+    with quiet():
+        objs.append(("Gaussian:tri", Gaussian(np.arange(n, dtype=float), sqrtprec=gen_matrix(rs, "lower", n)), n, False, 1e-9))
+        objs.append(("Gaussian:dense", Gaussian(np.arange(n, dtype=float), sqrtprec=gen_matrix(rs, "full", n)), n, False, 1e-9))
+        objs.append(("Gaussian:sparse", Gaussian(np.arange(n, dtype=float), sqrtprec=sp.csr_matrix(gen_matrix(rs, "tridiag", n))), n, False, 1e-9))
+        objs.append(("Gaussian:cov-vector", Gaussian(np.arange(n, dtype=float), cov=np.array([0.25, 4.0, 1.0, 16.0])), n, False, 1e-9))
+        objs.append(("Lognormal", Lognormal(np.zeros(n), np.array([0.25, 1.0, 0.0625, 0.25])), n, True, 1e-9))
+        for order in (1, 2):
+            objs.append((f"GMRF:zero:order{order}", GMRF(np.arange(n, dtype=float), 4.0, bc_type="zero", order=order), n, False, 1e-9))
+        objs.append(("GMRF:zero:2D", GMRF(np.arange(9, dtype=float), 4.0, bc_type="zero", geometry=Image2D((3, 3))), 9, False, 1e-9))
+        objs.append(("GMRF:neumann", GMRF(np.arange(n, dtype=float), 4.0, bc_type="neumann"), n, False, 1e-6))
+        objs.append(("GMRF:periodic", GMRF(np.arange(n, dtype=float), 4.0, bc_type="periodic"), n, False, 1e-9))
+    for name, D, dim, logspace, tol in objs:
+        # read-off (offset, B) once
+        blocks = []
+
+        def unit(method, shape, k):
+            return None
+        rows = int(D._diff_op.shape[0]) if name == "GMRF:neumann" else dim
+        ncalls = 2 if name == "GMRF:periodic" else 1
+        tot = rows * ncalls
+
+        def plan_unit(method, shape, k, rows=rows, tot=tot):
+            Z = np.zeros((rows, tot + 1)); Z[:, 1 + k * rows:1 + (k + 1) * rows] = np.eye(rows)
+            return Z
+        s0, e0, _ = call_sample(D, tot + 1, Script(plan_unit))
+        if e0 is not None:
+            continue
+        S0 = values(s0); S0 = np.log(S0) if logspace else S0
+        off = S0[:, 0].copy(); B = S0[:, 1:] - off[:, None]
+        for N in Ns:
+            zs = []
+
+            def plan(method, shape, k, zs=zs):
+                z = (2 * rs.randint(-12, 12, size=shape) + 1) / 8.0
+                zs.append(z); return z
+            r = Script(plan)
+            s_, e_, _ = call_sample(D, N, r)
+            desc = {"family": name, "dim": dim, "N": N}
+            key = f"blocks:{name}"
+            ctx.case("block-sizes", desc)
+            if e_ is not None:
+                ctx.fail(key, desc, "a sample", e_, "sampling fails for this number of draws"); continue
+            X = values(s_); X = np.log(X) if logspace else X
+            Z = np.vstack(zs)
+            pred = off[:, None] + B @ Z
+            if X.shape != pred.shape or not np.allclose(X, pred, rtol=tol, atol=tol * max(1.0, float(np.abs(pred).max()))):
+                badc = [] if X.shape != pred.shape else [int(j) for j in np.where(np.abs(X - pred).max(axis=0) > tol * max(1.0, float(np.abs(pred).max())))[0][:8]]
+                ctx.disagree(key, desc, "offset + B xi_j for every column j", {"first_wrong_columns": badc}, "large request vs the affine map read off from a small request")
+                ctx.fail(key, desc, f"each of the {N} columns is the affine image of its own normal column (one column per draw, all following the density)",
+                         {"first_wrong_columns": badc, "n_wrong": (None if X.shape != pred.shape else int((np.abs(X - pred).max(axis=0) > tol * max(1.0, float(np.abs(pred).max()))).sum())),
+                          "example_wrong_column": (X[:, badc[0]].tolist() if badc else None), "its_prediction": (pred[:, badc[0]].tolist() if badc else None)},
+                         "some columns of a large request are not drawn / not solved (block or threshold handling)")
+            for d_, g_ in wrap_oracle(cuqi, D, N, s_):
+                ctx.fail(key, desc, d_, g_, "wrapping")
+    # iid families: draws = transposed generator output for every N
+    iid = [("normal", Normal(np.array([1.0, 2.0]), 0.5)), ("gamma", Gamma(np.array([2.0, 3.0]), 4.0)), ("laplace", Laplace(np.array([1.0, 2.0]), 0.5)),
+           ("uniform", Uniform(np.array([0.0, 1.0]), np.array([2.0, 5.0]))), ("cauchy", Cauchy(np.array([1.0, 2.0]), 0.5)), ("beta", Beta(np.array([2.0, 3.0]), 2.0)),
+           ("invgamma", InverseGamma(np.array([3.0, 4.0]), 0.0, 2.0))]
+    for fam, D in iid:
+        for N in Ns:
+            desc = {"family": fam, "dim": 2, "N": N}
+            ctx.case("block-sizes", desc)
+            rA, rB = Script(odd_plan(N)), Script(odd_plan(N))
+            sA, eA, _ = call_sample(D, N, rA)
+            if eA is not None:
+                ctx.fail(f"blocks:{fam}", desc, "a sample", eA, "sampling fails for this number of draws"); continue
+            X = values(sA)
+            # column j must be what a one-draw-at-a-time use of the same generator output gives
+            cols = []
+            ok = X.shape == (2, N) and len(rA.calls) == 1
+            if ok and fam in ("normal", "gamma", "laplace", "uniform"):
+                G = odd_plan(N)(rA.calls[0][0], rA.calls[0][2], 0)
+                ok = np.array_equal(X, G.T)
+            elif ok:
+                # scipy path: same uniform block, requested in two halves, must give the same columns
+                h = N // 2
+                D1 = D
+                u = odd_plan(N)(rA.calls[0][0], rA.calls[0][2], 0)
+                s1, e1, _ = call_sample(D1, h, Script(lambda m, shp, k, u=u, h=h: u[:h]))
+                s2, e2, _ = call_sample(D1, N - h, Script(lambda m, shp, k, u=u, h=h: u[h:]))
+                ok = e1 is None and e2 is None and np.allclose(np.hstack([values(s1), values(s2)]), X, rtol=1e-12, atol=0)
+            if not ok:
+                ctx.fail(f"blocks:{fam}", desc, "column j of a large request is the draw made from row j of the generator output", "differs",
+                         "some columns of a large request are not drawn from their own generator output")
+    # dims around MAX_DIM_INV = 2000 (light: defining relation of the draw only)
+    for dimL in (1999, 2001):
+        mean = np.arange(dimL, dtype=float) % 7
+        for name, mk in (("GMRF:zero", lambda: GMRF(mean.copy(), 4.0, bc_type="zero")), ("Gaussian:cov-vector", lambda: Gaussian(mean.copy(), cov=np.full(dimL, 0.25)))):
+            desc = {"family": name, "dim": dimL, "N": 2}
+            ctx.case("block-sizes", desc)
+            try:
+                with quiet():
+                    D = mk()
+            except Exception as e:
+                ctx.note(f"blocks: {name} dim {dimL} refused: {type(e).__name__}"); continue
+            zs = []
+
+            def planL(method, shape, k, zs=zs):
+                z = (2 * rs.randint(-12, 12, size=shape) + 1) / 8.0
+                zs.append(z); return z
+            s_, e_, _ = call_sample(D, 2, Script(planL))
+            if e_ is not None:
+                ctx.fail(f"blocks:{name}:dim", desc, "a sample", e_, "sampling fails at this dimension"); continue
+            X = values(s_)
+            with quiet():
+                Rq = D.sqrtprec
+            lhs = Rq @ (X - mean[:, None])
+            if X.shape != (dimL, 2) or not np.allclose(np.asarray(lhs), zs[0], rtol=1e-9, atol=1e-9):
+                ctx.fail(f"blocks:{name}:dim", desc, "sqrtprec · (draw − mean) = the normal column, for every column", "differs", "draws at a dimension past an internal threshold")
+
+
+def run_units(ctx, cuqi, thorough):
+    """problems posed in tiny / huge units (location parameters far below any absolute tolerance but not negligible
+    against the spread): GMRF, Lognormal and the iid families (Gaussian is in the scale block)."""
+    from cuqi.distribution import GMRF, Lognormal, Normal, Laplace, Cauchy, Uniform, Gaussian
+    rs = np.random.RandomState(ctx.seed + 513)
+    lines, metas = [], []
+    for sc in (1e-12, 1e-9, 1e-6, 1e6, 1e9):
+        # GMRF: mean ~ sc, standard deviations ~ sc/10
+        n = 4
+        m0 = rint(rs, 1, 4, size=n).astype(float)
+        mean = m0 * sc; prec = 100.0 / sc ** 2
+        for bc in ("zero", "neumann"):
+            with quiet():
+                G = GMRF(mean.copy(), prec, bc_type=bc)
+            rows = int(G._diff_op.shape[0]) if bc == "neumann" else n
+            s_, e_, _ = call_sample(G, rows + 1, Script(unit_plan(rows)))
+            desc = {"family": "GMRF", "bc": bc, "units": sc, "mean": mean.tolist(), "prec": prec}
+            key = f"units:GMRF:{bc}"
+            ctx.case("units", desc)
+            if e_ is not None:
+                ctx.fail(key, desc, "a sample", e_, "sampling raises"); continue
+            S = values(s_); off = S[:, 0].copy(); B = S[:, 1:] - off[:, None]
+            with quiet():
+                fresh1 = GMRF(m0.copy(), 100.0, bc_type=bc)
+            s1, e1, _ = call_sample(fresh1, rows + 1, Script(unit_plan(rows)))
+            if e1 is None and not np.allclose(S / sc, values(s1), rtol=1e-6 if bc == "neumann" else 1e-9, atol=1e-9):
+                ctx.disagree(key, desc, values(s1).tolist(), (S / sc).tolist(), "draws / unit vs the same problem posed in unit 1")
+            affine_oracle(G, off, B, key, desc, ctx, singular=(bc != "zero"), tol=1e-6, h=sc / 10.0)
+        # iid location-scale families: parameters must reach the generator exactly
+        for fam, cls, pars in (("normal", Normal, [3.0 * sc, sc / 8]), ("laplace", Laplace, [-2.0 * sc, sc / 8]), ("cauchy", Cauchy, [5.0 * sc, sc / 8]),
+                               ("uniform", Uniform, [2.0 * sc, 3.0 * sc])):
+            with quiet():
+                D = cls(*pars)
+            N = 5
+            Gm = pars[0] + (pars[1] if fam != "uniform" else (pars[1] - pars[0])) * (2 * rs.randint(0, 8, size=(N, 1)) + 1) / 16.0
+            desc = {"family": fam, "units": sc, "params": pars}
+            key = f"units:{fam}"
+            ctx.case("units", desc)
+            law_oracle_ok = True
+            holder = {}
+
+            class S4(Script):
+                def _out(self, method, args, size):
+                    holder["m"] = (method, [float(np.ravel(a_)[0]) for a_ in args])
+                    return super()._out(method, args, size)
+            if fam == "cauchy":
+                # scipy path: compare with the unit-1 problem under the same uniform output
+                u = (2 * rs.randint(0, 8, size=(N, 1)) + 1) / 16.0
+                sA, eA, _ = call_sample(D, N, Script(lambda m_, shp, k: u))
+                with quiet():
+                    D1 = cls(pars[0] / sc, pars[1] / sc)
+                sB, eB, _ = call_sample(D1, N, Script(lambda m_, shp, k: u))
+                if eA is None and eB is None and not np.allclose(values(sA) / sc, values(sB), rtol=1e-9, atol=1e-12):
+                    ctx.fail(key, desc, "draws scale with the units of location and scale", {"scaled": (values(sA) / sc).tolist(), "unit": values(sB).tolist()}, "a location / scale parameter is lost at this magnitude")
+                continue
+            sA, eA, _ = call_sample(D, N, S4(lambda m_, shp, k: Gm))
+            if eA is not None or "m" not in holder:
+                ctx.fail(key, desc, "a sample", eA, "sampling raises"); continue
+            if holder["m"][1] != [float(p_) for p_ in pars] or not np.array_equal(values(sA), Gm.T):
+                ctx.fail(key, desc, "the generator receives exactly the distribution's parameters and its output is returned", {"generator_args": holder["m"], "params": pars},
+                         "a parameter is altered / dropped at this magnitude")
+        # Lognormal: mean tiny (log-scale), spread tiny (only where exp/log round-trip keeps 1e-6 relative accuracy)
+        if not (1e-7 < sc <= 1.0 or sc == 1e6):
+            continue
+        with quiet():
+            L = Lognormal(np.array([2.0, -3.0]) * min(sc, 1.0), np.array([0.25, 4.0]) * min(sc, 1.0) ** 2 * 1e-2)
+        desc = {"family": "Lognormal", "units": min(sc, 1.0)}
+        ctx.case("units", desc)
+        s_, e_, _ = call_sample(L, 3, Script(unit_plan(2)))
+        if e_ is None and np.all(values(s_) > 0):
+            Y = np.log(values(s_)); off = Y[:, 0].copy(); B = Y[:, 1:] - off[:, None]
+            exp_off = np.array([2.0, -3.0]) * min(sc, 1.0)
+            if not np.allclose(off, exp_off, rtol=1e-6, atol=0) or not np.allclose(B, np.diag(np.sqrt(np.array([0.25, 4.0]) * 1e-2) * min(sc, 1.0)), rtol=1e-6, atol=0):
+                ctx.fail("units:Lognormal", desc, "log-draw = mean + sqrt(cov) xi", {"offset": off.tolist(), "B": B.tolist()}, "location or spread lost at this magnitude")
+
+
+_run_part6 = run
+
+
+def run(ctx):   # noqa: F811
+    _run_part6(ctx)
+    cuqi = import_cuqi()
+    th = ctx.tier == "thorough"
+    run_custom(ctx, cuqi, th)
+    run_blocks(ctx, cuqi, th)
+    run_units(ctx, cuqi, th)
     # G8: every sample object returned during the whole run still holds the numbers it held when it was returned
     bad = 0
     for (obj, copy, what) in RETAINED:
